@@ -1,10 +1,25 @@
 // Hand-written entry points that the generated dispatch table does not cover
-// (generic code, formatting, serde).  Filled in as the corresponding hand models land.
+// (generic code, formatting, serde).
 #![allow(unused)]
 use super::*;
 
 pub fn run(op: &str, a: &[&str]) -> Option<String> {
     match op {
+        // Iterator::sum over TwoFloat items / f64 items (by value): `sum_tf k h l h l ...`, `sum_f64 k x x ...`
+        "sum_tf" => {
+            let k: usize = a.get(0)?.parse().ok()?;
+            if a.len() < 1 + 2 * k { return None; }
+            let v: Vec<TwoFloat> = (0..k).map(|i| rd_tf(a[1 + 2 * i], a[2 + 2 * i])).collect();
+            let s: TwoFloat = v.into_iter().sum();
+            Some(wr_tf(s))
+        }
+        "sum_f64" => {
+            let k: usize = a.get(0)?.parse().ok()?;
+            if a.len() < 1 + k { return None; }
+            let v: Vec<f64> = (0..k).map(|i| rd_f64(a[1 + i])).collect();
+            let s: TwoFloat = v.into_iter().sum();
+            Some(wr_tf(s))
+        }
         _ => None,
     }
 }
